@@ -56,6 +56,10 @@ func (t *Template) Execute(w io.Writer, variables VarMap, data interface{}) (err
 	st := pool_State.Get().(*Runtime)
 	defer st.recover(&err)
 
+	if variables == nil {
+		// Let() and LetGlobal() called from a Func write to this map
+		variables = VarMap{}
+	}
 	st.blocks = t.processedBlocks
 	st.variables = variables
 	st.set = t.set
